@@ -597,7 +597,15 @@ impl<'a> W<'a> {
         let (b, p) = (self.b, self.pos);
         let avail = self.avail();
         if avail < 12 {
-            self.stop(RK::Ah, vec![Fault::Short { need: 12 }]);
+            let mut f = vec![Fault::Short { need: 12 }];
+            if avail >= 2 {
+                if b[p + 1] == 0 {
+                    f.push(Fault::Content("ah.zero_payload_len", 0));
+                } else if (b[p + 1] as usize + 2) * 4 > 12 {
+                    f.push(Fault::Short { need: (b[p + 1] as usize + 2) * 4 });
+                }
+            }
+            self.stop(RK::Ah, f);
             return None;
         }
         let lf = b[p + 1] as usize;
@@ -750,7 +758,12 @@ impl<'a> W<'a> {
         let (b, p) = (self.b, self.pos);
         let avail = self.avail();
         if avail < 8 {
-            self.stop(kind, vec![Fault::Short { need: 8 }]);
+            // the full length is a real requirement too as soon as the length byte is readable
+            let mut f = vec![Fault::Short { need: 8 }];
+            if avail >= 2 && (b[p + 1] as usize + 1) * 8 > 8 {
+                f.push(Fault::Short { need: (b[p + 1] as usize + 1) * 8 });
+            }
+            self.stop(kind, f);
             return None;
         }
         let lf = b[p + 1] as usize;
